@@ -1,12 +1,290 @@
-"""Self validation of the checker: single-edit variants of the analysed tree (scratch copies outside /repo
-and /verif, removed immediately) that must fire (F) or must stay silent (S).  Filled in per property."""
+"""Self validation of the checker (DESIGN.md section 3 / Appendix A).
+
+Each variant is a single textual edit of the analysed tree, applied to a scratch copy (mkdtemp outside /repo and
+/verif, removed immediately).  F = the property's check must report a violation (optionally by the named rule),
+S = the check must stay silent (behaviour preserving edit).  A variant whose anchor text is not present in the
+tree being analysed is skipped, never failed.  The quick tier runs one F variant (rotating with VERIF_SEED) as the
+'positive example that must match on every run'; the thorough tier runs the whole table in parallel.
+The table is the checker's regression suite - it is not evidence about the repository.
+"""
+import concurrent.futures
 import os
+import shutil
+import subprocess
+import sys
+import tempfile
+
+FD = 'finite_difference.py'
+CORE = 'core.py'
+EXT = 'extrapolation.py'
+LIM = 'limits.py'
+SG = 'step_generators.py'
+MC = 'multicomplex.py'
+FB = 'fornberg.py'
+SP = 'nd_scipy.py'
+
+# (name, file, old, new, kind, expected rule or None)
+V = {}
+
+V['C01'] = [
+    ('offset[6] 3->1', FD, 'offset = [1, 1, 2, 2, 4, 1, 3][parity]', 'offset = [1, 1, 2, 2, 4, 1, 1][parity]', 'F', None),
+    ('c_0[4] 24->12', FD, 'c_0 = [1.0, 1.0, 1.0, 2.0, 24.0, 1.0, 6.0][parity]', 'c_0 = [1.0, 1.0, 1.0, 2.0, 12.0, 1.0, 6.0][parity]', 'F', 'R-RULEROW'),
+    ('flip list loses n%8==6', FD, '(self.n % 8 in [3, 4, 5, 6])', '(self.n % 8 in [3, 4, 5])', 'F', 'R-RULEROW'),
+    ('complex_odd_higher .real->.imag', FD, 'return ((3 * _SQRT_J) * (f(x + i_h) - f(x - i_h))).real', 'return ((3 * _SQRT_J) * (f(x + i_h) - f(x - i_h))).imag', 'F', None),
+    ('complex_even_higher drops 2*f_x', FD, 'return 12.0 * (f(x + i_h) + f(x - i_h) - 2 * f_x).real', 'return 12.0 * (f(x + i_h) + f(x - i_h)).real', 'F', None),
+    ('h**n -> h**(n-1)', FD, 'der_init = f_diff / (h ** self.n)', 'der_init = f_diff / (h ** (self.n - 1))', 'F', 'R-E2E'),
+    ('convolution origin', FD, 'f_diff = convolve(f_del, fd_rule[::-1], axis=0, origin=n_r // 2)', 'f_diff = convolve(f_del, fd_rule[::-1], axis=0, origin=(n_r + 1) // 2)', 'F', 'R-E2E'),
+    ('eval_first_condition drops central', FD, "return ((even_derivative and self.method in ('central', 'central2')) or", "return ((even_derivative and self.method in ('central2',)) or", 'F', 'R-E2E'),
+    ('richardson order = self.order', CORE, '        order = self.method_order\n        step = self.fd_rule.richardson_step', '        order = self.order\n        step = self.fd_rule.richardson_step', 'F', 'R-E2E'),
+    ('rule_index off by one', FD, 'rule_index = order // step', 'rule_index = (order + 1) // step', 'F', None),
+    ('_fd_matrix exponent', FD, 'inv_sr ** (i * (step * j + offset))', 'inv_sr ** (i * (step * j) + offset)', 'F', None),
+    ('zero order evaluates at x+1', CORE, 'results = [self.fun(x_i, *args, **kwds)]', 'results = [self.fun(x_i + 1, *args, **kwds)]', 'F', 'R-ZERO'),
+    ('central written as 0.5*', FD, 'return (f(x0i + h) - f(x0i - h)) / 2.0', 'return 0.5 * (f(x0i + h) - f(x0i - h))', 'S', None),
+    ('tables as tuples', FD, 'step = [1, 2, 2, 4, 4, 4, 4][parity]', 'step = (1, 2, 2, 4, 4, 4, 4)[parity]', 'S', None),
+    ('i_h inlined', FD, '        i_h = h * _SQRT_J\n        return (f(x + i_h) + f(x - i_h)).imag', '        return (f(x + h * _SQRT_J) + f(x - h * _SQRT_J)).imag', 'S', None),
+    ('flip list as a set', FD, '(self.n % 8 in [3, 4, 5, 6])', '(self.n % 8 in {3, 4, 5, 6})', 'S', None),
+]
+V['C06'] = [v for v in V['C01'] if v[0] in ('offset[6] 3->1', 'c_0[4] 24->12', 'flip list loses n%8==6', 'complex_odd_higher .real->.imag',
+                                             'rule_index off by one', '_fd_matrix exponent', 'central written as 0.5*', 'tables as tuples',
+                                             'flip list as a set')] + [
+    ('richardson_step complex always 2', FD, 'complex_step = 4 if self._complex_high_order else 2', 'complex_step = 2', 'F', None),
+    ('cache key without parity', FD, 'fd_rules = FD_RULES.get((step_ratio, parity, num_terms))\n        if fd_rules is None:\n            fd_mat = self._fd_matrix(step_ratio, parity, num_terms)\n            fd_rules = linalg.pinv(fd_mat)\n            FD_RULES[(step_ratio, parity, num_terms)] = fd_rules',
+     'fd_rules = FD_RULES.get((step_ratio, num_terms))\n        if fd_rules is None:\n            fd_mat = self._fd_matrix(step_ratio, parity, num_terms)\n            fd_rules = linalg.pinv(fd_mat)\n            FD_RULES[(step_ratio, num_terms)] = fd_rules', 'F', 'R-CACHE'),
+]
+V['C02'] = [
+    ('_eval_first drops full_output', CORE, 'if self.fd_rule.eval_first_condition or self.full_output:', 'if self.fd_rule.eval_first_condition:', 'F', 'R-FVALUE'),
+    ('final_step from arithmetic', LIM, 'final_step = steps.flat[idx].reshape(shape)', 'final_step = (0.5 * steps).flat[idx].reshape(shape)', 'F', 'R-GATHER'),
+    ('abs removed from error', EXT, '        err = np.abs(np.diff(new_sequence, axis=0)) * fact', '        err = np.diff(new_sequence, axis=0) * fact', 'F', 'R-NONNEG'),
+    ('info fields swapped', LIM, 'return der.flat[idx].reshape(shape), _Limit.info(err, final_step, idx)', 'return der.flat[idx].reshape(shape), _Limit.info(final_step, err, idx)', 'F', 'R-INFO'),
+    ('dea3 abserr sign', EXT, 'abserr = err1 + err2 + np.where(converged, tol2 * 10, np.abs(result - e_2))', 'abserr = err1 + err2 - np.where(converged, tol2 * 10, np.abs(result - e_2))', 'F', 'R-NONNEG'),
+    ('gathers reordered', LIM, '        final_step = steps.flat[idx].reshape(shape)\n        err = errors.flat[idx].reshape(shape)', '        err = errors.flat[idx].reshape(shape)\n        final_step = steps.flat[idx].reshape(shape)', 'S', None),
+]
+V['C03'] = [
+    ('increments uses h[0]', FD, '            e_i[k] = h[k]\n            yield e_i', '            e_i[k] = h[0]\n            yield e_i', 'F', None),
+    ('increments not reset', FD, '            yield e_i\n            e_i[k] = 0', '            yield e_i', 'F', None),
+    ('original_shape swap removed', FD, '            original_shape[:2] = original_shape[1::-1]\n', '', 'F', 'R-AXES'),
+    ('steps not transposed', FD, '            h = np.vstack([np.atleast_1d(r).transpose(axes).ravel() for r in steps])', '            h = np.vstack([np.atleast_1d(r).ravel() for r in steps])', 'F', 'R-AXES'),
+    ('Gradient squeeze dropped', CORE, '        return result.squeeze()', '        return result', 'F', 'R-GRAD'),
+    ('directionaldiff not normalised', CORE, 'vec = np.reshape(vec / np.linalg.norm(vec.ravel()), x0.shape)', 'vec = np.reshape(vec, x0.shape)', 'F', 'R-DIRDIFF'),
+    ('revert fix 5d6c82e (_expand_steps)', CORE, '        if np.ndim(fxi) == 0:\n            return steps', '        if np.size(fxi) == 1:\n            return steps', 'F', 'R-AXES'),
+    ('Jacobian central as 0.5*', FD, 'return np.array([(f(x + hi) - f(x - hi)) / 2.0 for hi in steps])', 'return np.array([0.5 * (f(x + hi) - f(x - hi)) for hi in steps])', 'S', None),
+]
+V['C04'] = [
+    ('central_even diag divisor', FD, '(4. * hess[i, i])', '(2. * hess[i, i])', 'F', 'R-HESS-SIGNATURE'),
+    ('central_even sign slip', FD, '- f(x - e_i + e_j) + f(x - e_i - e_j)) / (4. * hess[j, i])', '- f(x + e_i + e_j) + f(x - e_i - e_j)) / (4. * hess[j, i])', 'F', 'R-HESS-SIGNATURE'),
+    ('forward uses g[i] twice', FD, '- g[i] - g[j] + f_x) / hess[j, i]', '- 2 * g[i] + f_x) / hess[j, i]', 'F', 'R-HESS-SIGNATURE'),
+    ('mirror removed in complex_even', FD, '- f(x + 1j * eee[i] - eee[j])).imag / hess[j, i]\n                hess[j, i] = hess[i, j]', '- f(x + 1j * eee[i] - eee[j])).imag / hess[j, i]', 'F', 'R-MIRROR'),
+    ('Hessian default order table', CORE, '            order = dict(backward=1, forward=1).get(method, 2)', '            order = dict(backward=2, forward=2).get(method, 2)', 'S', None),
+    ('Hessdiag central2 coefficient', FD, '+ 2 * f_x - 2 * f(x + hi) - 2 * f(x - hi)) / 4.0', '+ 2 * f_x - 2 * f(x + hi) - 2 * f(x - hi)) / 2.0', 'F', None),
+    ('revert fix 6259e14 (length-1 value)', CORE, '            if np.ndim(f_x) == 1 and np.size(f_x) == 1:\n                return f_x[0]\n', '', 'F', 'R-HESS-SHAPE'),
+    ('eee[i, :] -> eee[i]', FD, 'hess[i, j] = (f(x + eee[i, :] + eee[j, :]) - g[i] - g[j] + f_x) / hess[j, i]', 'hess[i, j] = (f(x + eee[i] + eee[j]) - g[i] - g[j] + f_x) / hess[j, i]', 'S', None),
+]
+V['C05'] = [
+    ('Hessian backward passes +h', FD, 'return HessianDifferenceFunctions._forward(f, f_x, x, -h)', 'return HessianDifferenceFunctions._forward(f, f_x, x, h)', 'F', 'R-ADMISSIBLE'),
+    ('Hessdiag backward above x', FD, '        partials = [f_x - f(x - hi) for hi in increments]', '        partials = [f_x - f(x + hi) for hi in increments]', 'F', 'R-ADMISSIBLE'),
+    ('Jacobian forward below x', FD, 'return np.array([f(x + hi) - f_x for hi in steps])', 'return np.array([f_x - f(x - hi) for hi in steps])', 'F', 'R-ADMISSIBLE'),
+    ('multicomplex shifts the real part', FD, '        z = Bicomplex(x + 1j * h, 0)', '        z = Bicomplex(x + h + 1j * h, 0)', 'F', 'R-ADMISSIBLE'),
+    ('central not symmetric', FD, 'return (f(x0i + h) - f(x0i - h)) / 2.0', 'return (f(x0i + h) - f(x0i - 2 * h)) / 2.0', 'F', 'R-ADMISSIBLE'),
+    ('zero filter removed', SG, '            if (np.abs(step) > 0).all():\n                yield step', '            yield step', 'F', 'R-STEPSIGN'),
+    ('operands swapped', FD, 'return f(x0i + h) - f_x0i', 'return f(h + x0i) - f_x0i', 'S', None),
+]
+V['C07'] = [
+    ('r_matrix exponent shifted', EXT, 'r_mat[:, 1:] = (1.0 / step_ratio) ** (i * (step * j + order))', 'r_mat[:, 1:] = (1.0 / step_ratio) ** (i * (step * (j + 1) + order))', 'F', 'R-EXTRAP'),
+    ('rule takes last row', EXT, 'return linalg.pinv(r_mat)[0]', 'return linalg.pinv(r_mat)[-1]', 'F', 'R-EXTRAP'),
+    ('short sequences not handled', EXT, 'num_terms = min(self.num_terms, sequence_length - 1)', 'num_terms = self.num_terms', 'F', None),
+    ('steps trimmed at the wrong end', EXT, 'return new_sequence[:m], abserr[:m], steps[:m]', 'return new_sequence[:m], abserr[:m], steps[n_r:]', 'F', 'R-SHORT'),
+    ('imaginary part with reversed rule', EXT, '+ 1j * convolve1d(seq.imag, rule, **kwds)', '+ 1j * convolve1d(seq.imag, rule[::-1], **kwds)', 'F', 'R-EXTRAP'),
+    ('abs removed', EXT, '        err = np.abs(np.diff(new_sequence, axis=0)) * fact', '        err = np.diff(new_sequence, axis=0) * fact', 'F', 'R-NONNEG'),
+    ('ratio power rewritten', EXT, 'r_mat[:, 1:] = (1.0 / step_ratio) ** (i * (step * j + order))', 'r_mat[:, 1:] = step_ratio ** (-i * (step * j + order))', 'S', None),
+]
+V['C08'] = [
+    ('nanmin over the whole table', LIM, 'min_errors = np.nanmin(errors, axis=0)', 'min_errors = np.nanmin(errors)', 'F', None),
+    ('percentile without axis', LIM, 'p25, median, p75 = np.percentile(der, [25,50, 75], axis=0)', 'p25, median, p75 = np.percentile(der, [25,50, 75])', 'F', 'R-COLSEP'),
+    ('kwds not forwarded', CORE, '            return fun(x, *args, **kwds)', '            return fun(x, *args)', 'F', 'R-FORWARD'),
+    ('shape from the last row', FD, "        original_shape = np.shape(sequence[0])\n        f_del = np.vstack([np.ravel(r) for r in sequence])\n        one = np.ones(original_shape)\n        h = np.vstack([np.ravel(one * step) for step in steps])\n        _assert(f_del.size == h.size, 'fun did not return data of correct '\n                'size (it must be vectorized)')\n        return f_del, h, original_shape\n\n    def apply",
+     "        original_shape = np.shape(sequence[0])\n        f_del = np.vstack([np.ravel(r) for r in sequence])\n        one = np.ones(original_shape)\n        h = np.vstack([np.ravel(one * step) for step in steps])\n        _assert(f_del.size == h.size, 'fun did not return data of correct '\n                'size (it must be vectorized)')\n        return f_del, h, np.shape(np.ravel(sequence[0]))\n\n    def apply", 'F', 'R-SHAPE'),
+    ('revert fix ae04deb (all-NaN column)', LIM, "        all_nan = np.all(np.isnan(errors), axis=0)\n        if np.any(all_nan):\n            # an element without any valid estimate must not affect the other elements\n            warnings.warn('All-NaN slice encountered')\n            errors = np.where(all_nan, 0.0, errors)\n", '        all_nan = np.zeros(shape[1], dtype=bool)\n', 'S', None),
+    ('np.abs -> abs', LIM, '        a_median = np.abs(median)', '        a_median = abs(median)', 'S', None),
+]
+V['C09'] = [
+    ('n setter forgets _set_derivative', CORE, '        self.fd_rule.n = value\n        self._set_derivative()', '        self.fd_rule.n = value', 'F', 'R-HISTORY'),
+    ('cache key without parity', FD, V['C06'][-1][2], V['C06'][-1][3], 'F', None),
+    ('_state assigned after use', SG, "        self._state = _STATE(np.asarray(x), method, n, order)\n        base_step, step_ratio = self.base_step * self.step_nom, self.step_ratio",
+     "        base_step, step_ratio = self.base_step * self.step_nom, self.step_ratio\n        self._state = _STATE(np.asarray(x), method, n, order)", 'F', 'R-HISTORY'),
+    ('rule row negated in place', FD, '        if self._flip_fd_rule:\n            return -fd_rules[rule_index]\n        return fd_rules[rule_index]', '        if self._flip_fd_rule:\n            fd_rules[rule_index] *= -1\n        return fd_rules[rule_index]', 'F', 'R-HISTORY'),
+    ('richardson only set once', CORE, '        self.set_richardson_rule(step_ratio, self.richardson_terms)\n\n        return self.fd_rule.apply(results, steps, step_ratio), fxi',
+     "        if not hasattr(self, '_rich_done'):\n            self.set_richardson_rule(step_ratio, self.richardson_terms)\n            self._rich_done = True\n\n        return self.fd_rule.apply(results, steps, step_ratio), fxi", 'F', 'R-HISTORY'),
+    ('cache via setdefault', FD, '            FD_RULES[(step_ratio, parity, num_terms)] = fd_rules', '            FD_RULES.setdefault((step_ratio, parity, num_terms), fd_rules)', 'S', None),
+]
+V['C10'] = [
+    ('Min generator ascending', SG, '        return range(self.num_steps - 1, -1, -1)', '        return range(self.num_steps)', 'F', None),
+    ('offset inside the sign', SG, 'step = base_step * step_ratio ** (sgn * i + offset)', 'step = base_step * step_ratio ** (sgn * (i + offset))', 'F', 'R-CLOSEDFORM'),
+    ('num_steps check always applied', SG, '            if self.check_num_steps:\n                num_steps = max(num_steps, min_num_steps)', '            num_steps = max(num_steps, min_num_steps)', 'F', 'R-OPTIONS'),
+    ('default ratio for n=1', SG, 'step_ratio = {1: 2.0}.get(self._state.n, 1.6)', 'step_ratio = {1: 1.6}.get(self._state.n, 1.6)', 'F', 'R-DEFAULTS'),
+    ('exact steps ignored', SG, '        if self.use_exact_steps:\n            base_step = make_exact(base_step)', '        if True:\n            base_step = make_exact(base_step)', 'F', 'R-OPTIONS'),
+    ('min_num_steps too small', SG, '        num_steps = int(n + order - 1)\n        divisor', '        num_steps = int(n + order - 1) // 3\n        divisor', 'F', None),
+    ('ratio default as conditional', SG, 'step_ratio = {1: 2.0}.get(self._state.n, 1.6)', 'step_ratio = 2.0 if self._state.n == 1 else 1.6', 'S', None),
+]
+V['C11'] = [
+    ('revert fix 4107309 (Jacobian guard)', CORE, "        if self.method in ['complex', 'multicomplex']:\n            self._raise_error_if_any_is_complex(x_i, fxi)\n        results = [diff(f, fxi, x_i, h) for h in steps]", '        results = [diff(f, fxi, x_i, h) for h in steps]', 'F', 'R-COMPLEXGUARD'),
+    ('guard only for complex', CORE, "        if self.method in ['complex', 'multicomplex']:\n            f_x = f(x)", "        if self.method in ['complex']:\n            f_x = f(x)", 'F', 'R-COMPLEXGUARD'),
+    ('_assert raises TypeError', CORE, 'def _assert(cond, msg):\n    if not cond:\n        raise ValueError(msg)', 'def _assert(cond, msg):\n    if not cond:\n        raise TypeError(msg)', 'F', None),
+    ('steps guard weakened', FD, "        _assert(n_r < num_steps, 'num_steps", "        _assert(n_r <= num_steps + 5, 'num_steps", 'F', 'R-MISUSE'),
+    ('residue guard weakened', LIM, "        _assert(pole_order < order, 'order must be at least pole_order+1.')", "        _assert(pole_order <= order, 'order must be at least pole_order+1.')", 'F', 'R-MISUSE'),
+    ('fd_derivative length guard dropped', FB, "    _assert(num_x == len(fx), 'len(x) must be equal len(fx)')\n", '', 'F', 'R-MISUSE'),
+    ('guard as if/raise', FB, "    _assert(n < num_x, 'len(x) must be larger than n')\n    _assert(num_x == len(fx)", "    if not n < num_x:\n        raise ValueError('len(x) must be larger than n')\n    _assert(num_x == len(fx)", 'S', None),
+]
+V['C12'] = [
+    ('revert fix 2b04784 (log1p)', MC, '        z1, z2 = self.z1, self.z2\n        # log(mod_c(1 + z)) = 0.5 * log((1 + z1)**2 + z2**2)\n        return Bicomplex(0.5 * np.log1p(z1 * (2 + z1) + z2 * z2), self.arg_c1p())', '        return Bicomplex(np.log1p(self.mod_c()), self.arg_c1p())', 'F', None),
+    ('revert fix cf4bd22 (expm1)', MC, '(expm1z1 + 1) * np.sin(self.z2))', 'expm1z1 * np.sin(self.z2))', 'F', 'R-EXPPOLY'),
+    ('sin sign', MC, '        z2 = np.sinh(self.z2) * np.cos(self.z1)\n        return Bicomplex(z1, z2)', '        z2 = -np.sinh(self.z2) * np.cos(self.z1)\n        return Bicomplex(z1, z2)', 'F', 'R-EXPPOLY'),
+    ('cosh uses cosh(z2)', MC, '        z1 = np.cosh(self.z1) * np.cos(self.z2)', '        z1 = np.cosh(self.z1) * np.cosh(self.z2)', 'F', 'R-EXPPOLY'),
+    ('mul sign', MC, 'return Bicomplex(self.z1 * other.z1 - self.z2 * other.z2,', 'return Bicomplex(self.z1 * other.z1 + self.z2 * other.z2,', 'F', 'R-RING'),
+    ('mod_c minus', MC, '        r = np.sqrt(r11 + r22)', '        r = np.sqrt(r11 - r22)', 'F', None),
+    ('sec uses sin', MC, '        return 1. / self.cos()', '        return 1. / self.sin()', 'F', 'R-DERIVED'),
+    ('arctanh inverted', MC, 'return 0.5 * (((1 + self) / (1 - self)).log())', 'return 0.5 * (((1 - self) / (1 + self)).log())', 'F', 'R-DERIVED'),
+    ('imag12 alias', MC, '    def imag12(self):\n        return self.z2.imag', '    def imag12(self):\n        return self.z2.real', 'F', 'R-ALIASES'),
+    ('factors commuted', MC, '        z1 = np.cosh(self.z2) * np.sin(self.z1)', '        z1 = np.sin(self.z1) * np.cosh(self.z2)', 'S', None),
+    ('tan via power', MC, '        return self.sin() / self.cos()', '        return self.sin() * self.cos() ** -1', 'S', None),
+]
+V['C13'] = [
+    ('Shanks sign', EXT, 'sss = 1.0 / delta2 - 1.0 / delta1 + _TINY', 'sss = 1.0 / delta2 + 1.0 / delta1 + _TINY', 'F', 'R-SHANKS'),
+    ('abserr sign', EXT, V['C02'][4][2], V['C02'][4][3], 'F', 'R-NONNEG'),
+    ('input modified in place', EXT, '        delta2, delta1 = e_2 - e_1, e_1 - e_0', '        e_1 -= 0 * e_0\n        delta2, delta1 = e_2 - e_1, e_1 - e_0', 'F', 'R-NOMUTATE'),
+    ('symmetric trims two', EXT, '        return result[:-1], abserr[1:]', '        return result[:-2], abserr[1:]', 'F', 'R-ELEMENTWISE'),
+    ('guard on e_2', EXT, 'smalle2 = abs(sss * e_1) <= 1.0e-4', 'smalle2 = abs(sss * e_2) <= 1.0e-4', 'F', 'R-GUARD'),
+    ('np.abs -> abs', EXT, 'err2, err1 = np.abs(delta2), np.abs(delta1)', 'err2, err1 = abs(delta2), abs(delta1)', 'S', None),
+]
+V['C14'] = [
+    ('EpsAlg returns the other diagonal', EXT, 'estlim = epstab[n % 2]', 'estlim = epstab[(n + 1) % 2]', 'F', 'R-EPSALG'),
+    ('EpsAlg loop short', EXT, 'for i in range(n, 0, -1):', 'for i in range(n, 1, -1):', 'F', 'R-EPSALG'),
+    ('Dea floor dropped', EXT, '        abserr = max(abserr, 5.0*_EPS*abs(result))\n', '', 'F', 'R-DEA-FLOOR'),
+    ('Dea sss sign', EXT, 'sss = 1.0 / delta1 + 1.0 / delta2 - 1.0 / delta3', 'sss = 1.0 / delta1 + 1.0 / delta2 + 1.0 / delta3', 'F', None),
+    ('shift parity', EXT, 'i_0 = old_n % 2', 'i_0 = n % 2', 'F', 'R-DEA-TABLE'),
+    ('EpsAlg guard EPS', EXT, 'if np.abs(delta) <= 1.0e-60:', 'if np.abs(delta) <= _EPS:', 'F', 'R-EPSALG-GUARD'),
+]
+V['C15'] = [
+    ('weights[v, j] instead of j-1', FB, 'c_2, c_6, c_7 = c_2 * c_3, j * weights[v, j - 1], weights[v, j]', 'c_2, c_6, c_7 = c_2 * c_3, j * weights[v, j], weights[v, j]', 'F', 'R-LAGRANGE'),
+    ('new row uses c_4', FB, 'weights[i, j] = c_1 * (c_6 - c_5 * c_7) / c_2', 'weights[i, j] = c_1 * (c_6 - c_4 * c_7) / c_2', 'F', 'R-LAGRANGE'),
+    ('inner loop short', FB, '        for v in range(i):\n            c_3 = x[i] - x[v]', '        for v in range(max(i - 1, 1)):\n            c_3 = x[i] - x[v]', 'F', 'R-LAGRANGE'),
+    ('fd_weights takes row 0', FB, '    return fd_weights_all(x, x0, n)[-1]', '    return fd_weights_all(x, x0, n)[0]', 'F', 'R-ROW'),
+    ('c_1 .. renamed', FB, '        c_1 = c_2\n', '        c_1 = c_2 * 1\n', 'S', None),
+]
+V['C16'] = [
+    ('interior window one short', FB, 'fx[i - mm:i + mm + 1])', 'fx[i - mm:i + mm])', 'F', None),
+    ('right boundary expansion point', FB, 'du[-i - 1] = np.dot(fd_weights(x[-size:], x0=x[-i - 1], n=n), fx[-size:])', 'du[-i - 1] = np.dot(fd_weights(x[-size:], x0=x[-i], n=n), fx[-size:])', 'F', 'R-WINDOW'),
+    ('interior range short', FB, '    for i in range(mm, num_x - mm):', '    for i in range(mm, num_x - mm - 1):', 'F', 'R-COVER'),
+    ('derivative order dropped', FB, 'du[i] = np.dot(fd_weights(x[:size], x0=x[i], n=n), fx[:size])', 'du[i] = np.dot(fd_weights(x[:size], x0=x[i]), fx[:size])', 'F', 'R-WINDOW'),
+]
+V['C17'] = [
+    ('reset of _num_changes removed', FB, '        self._num_changes = 0\n        return m, self._mvec', '        return m, self._mvec', 'F', None),
+    ('failed from the loop index', FB, '            failed = not converged', '            failed = i > self.max_iter', 'F', 'R-FAILED'),
+    ('error estimate not scaled', FB, 'info = _INFO(info_.error_estimate * fact, *info_[1:])', 'info = _INFO(info_.error_estimate, *info_[1:])', 'F', 'R-FACTORIAL'),
+    ('revert fix d717abd (complex percentile)', LIM, "        if np.iscomplexobj(der):\n            # percentiles are not defined for complex data: treat real and imaginary parts separately\n            return (_Limit._add_error_to_outliers(der.real, trim_fact)\n                    + _Limit._add_error_to_outliers(der.imag, trim_fact))\n", '', 'F', 'R-KIND'),
+]
+V['C18'] = [
+    ('np.put replaced by assignment', LIM, '            np.put(f_z, k, lim_fz)\n            if self.full_output:', '            f_z = lim_fz\n            if self.full_output:', 'F', 'R-NANMASK'),
+    ('below sign', LIM, 'sign = dict(forward=1, above=1, backward=-1, below=-1)[self.method]', 'sign = dict(forward=1, above=1, backward=-1, below=1)[self.method]', 'F', 'R-SIGN'),
+    ('residue power', LIM, 'return self.fun(z + d_z, *args, **kwds) * (d_z ** self.pole_order)', 'return self.fun(z + d_z, *args, **kwds) * (d_z ** (self.pole_order - 1))', 'F', 'R-RESIDUE'),
+    ('residue default order', LIM, '            order = pole_order + 2', '            order = pole_order + 1', 'F', 'R-RESIDUE'),
+    ('revert fix d717abd (complex percentile)', LIM, V['C17'][3][2], '', 'F', 'R-KIND'),
+    ('args not forwarded', LIM, '    def _fun(self, z, d_z, args, kwds):\n        return self.fun(z + d_z, *args, **kwds)\n\n    def _get_steps', '    def _fun(self, z, d_z, args, kwds):\n        return self.fun(z + d_z, *args)\n\n    def _get_steps', 'F', 'R-SIGN'),
+]
+V['C19'] = [
+    ("central mapped to 2-point", SP, "central='3-point'", "central='2-point'", 'F', 'R-METHODMAP'),
+    ('bounds dropped', SP, "kwargs=kwds, bounds=self.bounds, sparsity=self.sparsity)", "kwargs=kwds, sparsity=self.sparsity)", 'F', 'R-KWARGS'),
+    ('kwargs dropped', SP, 'kwargs=kwds, bounds=self.bounds', 'kwargs=None, bounds=self.bounds', 'F', 'R-KWARGS'),
+    ('step as abs_step', SP, 'rel_step=self.step', 'abs_step=self.step', 'F', 'R-KWARGS'),
+    ('gradient squeeze dropped', SP, '*args, **kwds).squeeze()', '*args, **kwds)', 'F', 'R-GRAD'),
+]
+
+
+def apply_variant(root, fname, old, new):
+    """-> scratch dir or None when the anchor is not present"""
+    src = os.path.join(root, 'src', 'numdifftools', fname)
+    with open(src, newline='') as fh:
+        text = fh.read()
+    crlf = '\r\n' in text
+    o, n = (old.replace('\n', '\r\n'), new.replace('\n', '\r\n')) if crlf else (old, new)
+    if text.count(o) != 1:
+        return None
+    d = tempfile.mkdtemp(prefix='ndverif_var_')
+    shutil.copytree(os.path.join(root, 'src'), os.path.join(d, 'src'),
+                    ignore=shutil.ignore_patterns('tests', '__pycache__', '*.pyc'))
+    with open(os.path.join(d, 'src', 'numdifftools', fname), 'w', newline='') as fh:
+        fh.write(text.replace(o, n))
+    return d
+
+
+def run_variant(args):
+    prop, root, var = args
+    name, fname, old, new, kind, rule = var
+    d = apply_variant(root, fname, old, new)
+    if d is None:
+        return name, kind, 'skipped', ''
+    try:
+        verif = os.path.dirname(os.path.dirname(os.path.abspath(__file__)))
+        r = subprocess.run([sys.executable, '-m', 'ndverif', 'check', prop, '--tier', 'quick', '--repo', d,
+                            '--no-evidence', '--no-selfcheck'], cwd=verif, capture_output=True, text=True,
+                           env=dict(os.environ, NDVERIF_BUDGET='400'))
+        rules = sorted({ln.split('rule=')[1].split()[0] for ln in r.stdout.splitlines() if ln.strip().startswith('rule=')})
+        if kind == 'F':
+            ok = r.returncode == 1 and (rule is None or rule in rules)
+        else:
+            ok = r.returncode == 0
+        detail = 'exit %d rules %s' % (r.returncode, ','.join(rules))
+        if r.returncode == 2:
+            detail += ' ' + ' '.join(ln for ln in r.stdout.splitlines() if 'ANALYSIS-ERROR' in ln)[:160]
+        return name, kind, 'ok' if ok else 'FAILED', detail
+    finally:
+        shutil.rmtree(d, ignore_errors=True)
 
 
 def self_validate(prop, tier, repo_root, rep, seed):
-    return None
+    """Run variants of this property.  Records counts in the evidence; in the thorough tier a must-fire variant
+    that stays silent or a benign one that fires ends the run as ANALYSIS-ERROR (the checker is broken)."""
+    from .srcmodel import AnalysisError
+    table = V.get(prop, [])
+    if not table:
+        return
+    if any(i['verdict'] == 'violation' for i in rep.instances) and tier == 'quick':
+        return      # the tree itself is reported; variants on top of it say nothing
+    fs = [v for v in table if v[4] == 'F']
+    ss = [v for v in table if v[4] == 'S']
+    if tier == 'quick':
+        chosen = [fs[seed % len(fs)]] if fs else []
+        jobs = 1
+    else:
+        chosen = list(table)
+        jobs = min(16, os.cpu_count() or 4)
+    results = []
+    if jobs == 1:
+        results = [run_variant((prop, repo_root, v)) for v in chosen]
+    else:
+        with concurrent.futures.ThreadPoolExecutor(jobs) as ex:
+            results = list(ex.map(run_variant, [(prop, repo_root, v) for v in chosen]))
+    summary = {'must_fire': sum(1 for r in results if r[1] == 'F' and r[2] != 'skipped'),
+               'fired': sum(1 for r in results if r[1] == 'F' and r[2] == 'ok'),
+               'benign': sum(1 for r in results if r[1] == 'S' and r[2] != 'skipped'),
+               'silent': sum(1 for r in results if r[1] == 'S' and r[2] == 'ok'),
+               'skipped': sum(1 for r in results if r[2] == 'skipped'),
+               'variants': [{'name': r[0], 'kind': r[1], 'result': r[2], 'detail': r[3]} for r in results],
+               'table_size': len(table)}
+    rep.self_validation = summary
+    failed = [r for r in results if r[2] == 'FAILED']
+    base_clean = not any(i['verdict'] == 'violation' for i in rep.instances)
+    if failed and base_clean and tier == 'thorough':
+        raise AnalysisError('self validation failed: %s' % '; '.join('%s [%s] %s' % (r[0], r[1], r[3]) for r in failed[:3]))
 
 
 def selftest_cli(props, repo_root, jobs):
-    print('no variants registered yet')
-    return 0
+    todo = [(p, repo_root, v) for p in props for v in V.get(p, [])]
+    bad = 0
+    with concurrent.futures.ThreadPoolExecutor(jobs or min(16, os.cpu_count() or 4)) as ex:
+        for (p, _, v), r in zip(todo, ex.map(run_variant, todo)):
+            flag = '' if r[2] in ('ok', 'skipped') else '   <<<<<<'
+            if flag:
+                bad += 1
+            print('%-4s %-1s %-45s %-8s %s%s' % (p, r[1], r[0][:45], r[2], r[3][:110], flag), flush=True)
+    print('%d variants, %d failed' % (len(todo), bad))
+    return 1 if bad else 0
